@@ -388,7 +388,10 @@ func (p *Proxy) handleConnectRequest(ctx *Context, req *http.Request, session *S
 
 		// Prepend the previously read data to be read again by http.ReadRequest.
 		brw.Reader.Reset(io.MultiReader(bytes.NewReader(b), bytes.NewReader(buf), conn))
-		return p.handle(ctx, conn, brw)
+		// The request that follows is read by the loop that called us: reading
+		// it from here nests one call per CONNECT the client sends in the clear,
+		// without bound.
+		return nil
 	}
 
 	log.Debugf("martian: attempting to establish CONNECT tunnel: %s", req.URL.Host)
